@@ -89,7 +89,7 @@ fn plan_c33(seed: u64, tier: &str) -> Plan {
                 ops.push(Op::CreateReader { id: next, subscriber: 1, topic: 10, q: Q { reliable: Some(false), history: Some(0), deadline_ns: Some(deadline_ms * 1_000_000), ..Default::default() }, l: None });
                 q(&mut ops, "pub-matched");
                 ops.push(Op::DeleteReader { id: next, via: None });
-                q(&mut ops, "pub-matched");
+                q(&mut ops, "pub-unmatched");
                 next += 1;
             }
             1 => {
@@ -144,7 +144,7 @@ fn plan_c33(seed: u64, tier: &str) -> Plan {
     if let (Some(w), true) = (remote_writer, r.chance(0.5)) {
         // the matched remote writer goes away: one more subscription-matched change
         ops.push(Op::DeleteWriter { id: w, via: None });
-        q(&mut ops, "sub-matched");
+        q(&mut ops, "sub-unmatched");
     }
     ops.push(Op::Sleep { us: 500_000 });
     plan.phases.push(phase("events", false, vec![script(ops)]));
@@ -184,9 +184,9 @@ fn check_c33(plan: &Plan, out: &Outcome) -> Verdict {
         let count_marks = |l: &str| h.marks.iter().filter(|m| m.0 == l).count() as i64;
         let exp: Vec<(&str, u8, bool, i64, bool)> = vec![
             // (callback, status kind, writer side, expected count, exact)
-            ("on_publication_matched", PUB_MATCHED, true, count_marks("pub-matched"), true),
+            ("on_publication_matched", PUB_MATCHED, true, count_marks("pub-matched") + count_marks("pub-unmatched"), true),
             ("on_offered_incompatible_qos", OFFERED_INCOMPAT, true, count_marks("offered-incompatible"), true),
-            ("on_subscription_matched", SUB_MATCHED, false, count_marks("sub-matched"), true),
+            ("on_subscription_matched", SUB_MATCHED, false, count_marks("sub-matched") + count_marks("sub-unmatched"), true),
             ("on_requested_incompatible_qos", REQUESTED_INCOMPAT, false, count_marks("requested-incompatible"), true),
             ("on_offered_deadline_missed", OFFERED_DEADLINE, true, count_marks("offered-deadline"), true),
         ];
@@ -209,7 +209,14 @@ fn check_c33(plan: &Plan, out: &Outcome) -> Verdict {
                     }
                     let got = calls.iter().filter(|c| c.level == lv).count() as i64;
                     if exact && got != n {
-                        v.violate("C33", "C33.callback-count", format!("C33.callback-count {cb} more={}", got > n), format!("{cb}: {n} status change(s) occurred but the {lv} listener was called {got} time(s) (masks {:?})", p.masks));
+                        // exactly the callbacks for lost matches are missing (those for new matches were all delivered)?
+                        let unmatches = match cb {
+                            "on_publication_matched" => count_marks("pub-unmatched"),
+                            "on_subscription_matched" => count_marks("sub-unmatched"),
+                            _ => 0,
+                        };
+                        let sig = if unmatches > 0 && got == n - unmatches { format!("C33.callback-count {cb} unmatch-not-delivered") } else { format!("C33.callback-count {cb} more={}", got > n) };
+                        v.violate("C33", "C33.callback-count", sig, format!("{cb}: {n} status change(s) occurred ({unmatches} of them the loss of a match) but the {lv} listener was called {got} time(s) (masks {:?})", p.masks));
                     }
                 }
             }
